@@ -168,6 +168,9 @@ class ExprMixin:
             return z3.And(v.t != NONE, self.f_truthy(v.t))
         if isinstance(v, SRef):
             cls = v.cls
+            h = self.externals.get('truth:' + cls.name)
+            if h is not None:
+                return h(self, v, st)
             if cls.pyclass and self.has_method(cls, '__len__'):
                 raise Unsupported('truthiness through user __len__')
             if cls.has_dict() or cls.kind == 'set':
@@ -333,6 +336,9 @@ class ExprMixin:
             return [(obj.items[i], st)]
         if isinstance(obj, SRef):
             cls = obj.cls
+            h = self.externals.get('getitem:' + cls.name)
+            if h is not None:
+                return h(self, obj, idx, st, node)
             if cls.pyclass and self.has_method(cls, '__getitem__'):
                 return self.call_method(obj, '__getitem__', [idx], {}, st, node)
             if cls.kind == 'record' and cls.ncells is not None:
